@@ -1,7 +1,7 @@
 """C17 - generated code is loop-free and size-generic.
 
 Monitors on the text einx generates for G's cases (all families, numpy backends):
- (1) AST node whitelist (no For/While/If/IfExp/comprehension/Lambda/Try/With ...);
+ (1) no For/While/If/IfExp/comprehension/match/try node in the AST of the text;
  (2) the same description compiled at scaled axis lengths (unit axes kept, every other named axis
      scaled by an independent factor 2-5) yields the same AST once integer literals are abstracted;
  (3) dynamic counterpart: sys.monitoring CALL events on the generated function's own code object
@@ -24,6 +24,9 @@ ASSUMPTIONS = ["numeric axes written in the description are part of the descript
 TIMEOUT = {"quick": 900, "thorough": 7200}
 TOOL = 4
 
+# what the property rules out: loops, conditionals, comprehensions (anything else - calls, indexing, assertions, definitions - is straight-line code)
+FORBIDDEN_NODES = {"For", "AsyncFor", "While", "If", "IfExp", "ListComp", "SetComp", "DictComp", "GeneratorExp", "Match", "Try", "TryStar"}
+
 ALLOWED = {
     "Module", "Import", "ImportFrom", "alias", "FunctionDef", "arguments", "arg", "Assign", "Return", "Assert", "Expr", "Call", "keyword", "Name", "Attribute", "Subscript", "Slice",
     "Tuple", "List", "Dict", "Constant", "Compare", "BinOp", "UnaryOp", "Load", "Store", "Eq", "NotEq", "Lt", "LtE", "Gt", "GtE", "Add", "Sub", "Mult", "USub", "AugAssign",
@@ -44,7 +47,7 @@ class _Abstract(ast.NodeTransformer):
 
 def abstract_dump(text):
     tree = ast.parse(text)
-    bad = sorted({type(n).__name__ for n in ast.walk(tree)} - ALLOWED)
+    bad = sorted({type(n).__name__ for n in ast.walk(tree)} & FORBIDDEN_NODES)
     tree = _Abstract().visit(tree)
     return ast.dump(tree), bad
 
@@ -160,7 +163,7 @@ def run(spec, out):
             out.distinct_key(f"{case.op}|{b}|{hash(dump0) & 0xFFFFFFFF:x}")
         if i < 1:
             out.sample({"case": case.to_json(), "backend": b, "text": text})
-        if "def op(" not in text:
+        if not any(isinstance(n_, ast.FunctionDef) for n_ in ast.parse(text).body):
             out.count("no_function_in_text")
             continue
         names0, st0 = call_names(rec.fn, fresh_args(case))
